@@ -12,7 +12,8 @@ AUDIT = "PysamlModel/Audit/C06.lean"
 CORRESPONDENCE = "Drivers/Sp.lean (Sp.process) vs Saml2Client.parse_authn_request_response, correlation/status/shape dimension"
 RULE = ("Response InResponseTo x SubjectConfirmationData InResponseTo x allow_unsolicited x outstanding set: complete; every "
         "samlp.STATUS_* constant (regenerated) plus unknown ones as second-level code x three top-level codes: complete; versions, "
-        "assertion count, AuthnStatement count, subject presence: all single-defect cells plus pairwise combinations")
+        "assertion count, AuthnStatement count, subject presence: all single-defect cells plus pairwise combinations; plus random "
+        "combinations of all dimensions over 1-3 assertions with 0-3 confirmations each (200 quick / 8000 thorough)")
 TRUSTED = C.TRUSTED_COMMON + ["status codes and exception classes come from Gen/StatusCodes.lean regenerated from saml2.response / saml2.samlp on every run"]
 ASSUMPTIONS = C.ASSUMPTIONS_COMMON
 EXHAUSTIVE = True
@@ -128,6 +129,12 @@ def gen_cases(rng, tier):
         c["resp"]["assertions"].append(a2)
         c["tag"] = "two:plain+enc/%s" % dec
         yield c
+    # random combinations of all dimensions
+    for _ in range(200 if tier == "quick" else 8000):
+        yield random_mix(rng)
+    # cross-dimension stream: every dimension of the SP model varied at once
+    for _ in range(150 if tier == "quick" else 4000):
+        yield C.random_full(rng, PROP)
     # signed carriers (default configuration) of a few correlation cells
     for r_irt, sc in itertools.product(IRT, IRT):
         c = corr_case(r_irt, [sc], False, "many")
@@ -135,6 +142,51 @@ def gen_cases(rng, tier):
         c["resp"]["sig"] = "valid"
         c["tag"] += "/signed"
         yield c
+
+
+def random_mix(rng):
+    """One random combination of all dimensions: 1-3 assertions (plain / encrypted / undecryptable), each with 0-3
+    confirmations (with or without data, any InResponseTo), any outstanding set, binding, status and version."""
+    binding = rng.choice(["post", "post", "redirect", "soap"])
+    c = corr_case(rng.choice(list(IRT)), ["ok"], rng.random() < 0.4, rng.choice(list(OUTSTANDING)), binding)
+    if binding == "soap":
+        c["return_addrs"] = []
+        c["resp"]["destination"] = None
+    a0 = c["resp"]["assertions"][0]
+    conf0 = a0["subject"]["confs"][0]
+    asserts = []
+    for i in range(rng.choice([1, 1, 1, 2, 2, 3])):
+        a = copy.deepcopy(a0)
+        a["id"] = "a-%d" % i
+        confs = []
+        for _ in range(rng.choice([1, 1, 1, 2, 3, 0])):
+            if rng.random() < 0.15:
+                confs.append({"method": rng.choice(["bearer", "holder-of-key", "sender-vouches"]), "data": None})
+            else:
+                cf = copy.deepcopy(conf0)
+                cf["method"] = rng.choice(["bearer", "bearer", "bearer", "sender-vouches"])
+                cf["data"]["irt"] = IRT[rng.choice(["ok", "ok", "ok", "other", "unknown", "absent"])]
+                confs.append(cf)
+        a["subject"]["confs"] = confs
+        if rng.random() < 0.08:
+            a["subject"] = None
+        if rng.random() < 0.12:
+            a["authn"] = [{"session_index": "s%d" % j} for j in range(rng.choice([0, 2]))]
+        if rng.random() < 0.3:
+            a["encrypted"] = True
+            a["decryptable"] = rng.random() < 0.8
+        asserts.append(a)
+    c["resp"]["assertions"] = asserts
+    if rng.random() < 0.1:
+        c["resp"]["version"] = rng.choice(["1.1", "2.1"])
+    if rng.random() < 0.12:
+        c["resp"]["status_top"] = rng.choice([REQUESTER, RESPONDER])
+        c["resp"]["status_second"] = rng.choice([None] + status_constants())
+    if rng.random() < 0.2:
+        c["cfg"] = {"allow_unsolicited": c["cfg"].get("allow_unsolicited", False)}
+        c["resp"]["sig"] = "valid"
+    c["tag"] = "mix"
+    return c
 
 
 def finding_key(case, impl, lean):
